@@ -107,10 +107,10 @@ func runC08(r *report.Run) {
 			r.Violation(sig, what, *c)
 		}
 	}
-	o := cpuSweepOpts{thorough: r.Tier == "thorough", withE: true, seed: r.Seed}
+	o := cpuSweepOpts{thorough: r.Tier == "thorough", withE: true, withInt: true, seed: r.Seed}
 	counts := cpuEnumerate(o, nil, f)
 	hi := cpuAlphaHigh()
-	oh := cpuSweepOpts{thorough: r.Tier == "thorough", withE: true, seed: r.Seed, alpha: &hi}
+	oh := cpuSweepOpts{thorough: r.Tier == "thorough", withE: true, withInt: true, seed: r.Seed, alpha: &hi}
 	countsHi := cpuEnumerate(oh, nil, f)
 	depth := 3
 	if o.thorough {
